@@ -722,3 +722,8 @@ V('c17-param-keyerror', 'C17', 'C17.R2',
   (LSF, "            if len(params) != 1 or 'NewIndication' not in params:", "            if len(params) != 1:"), 'KeyError')
 V('c17-header-none', 'C17', 'C17.R2',
   (LSF, "        content_encoding = self.headers.get('Content-Encoding', 'identity')", "        content_encoding = self.headers.get('Content-Encoding')"), 'AttributeError')
+
+# ---- C17.R6 -----------------------------------------------------------------
+V('c17-length-of-str', 'C17', 'C17.R6',
+  (LSF, "        if isinstance(resp_body, str):\n            resp_body = resp_body.encode(\"utf-8\")\n\n        http_code = 200\n        self.send_response(http_code, http.client.responses.get(http_code, ''))\n        self.send_header(\"Content-Type\", \"text/xml\")\n        self.send_header(\"Content-Length\", str(len(resp_body)))\n        self.send_header(\"CIMExport\", \"MethodResponse\")\n        self.end_headers()\n        self.wfile.write(resp_body)",
+   "        http_code = 200\n        self.send_response(http_code, http.client.responses.get(http_code, ''))\n        self.send_header(\"Content-Type\", \"text/xml\")\n        self.send_header(\"Content-Length\", str(len(resp_body)))\n        self.send_header(\"CIMExport\", \"MethodResponse\")\n        self.end_headers()\n        self.wfile.write(resp_body.encode(\"utf-8\"))", 2), 'length-of-other-object')
